@@ -279,7 +279,21 @@ def make_content(nlines, maxlen):
 REL = {"datasource": "rel/ds_file", "text_file": "etc/some.conf", "command": "the_command_-x", "container_command": "cid/insights_commands/cmd", "container_file": "cid/etc/x.conf"}
 
 
-def roundtrip_multi(kinds, lines_list):
+class PoolMapStub(object):
+    """executor whose map() runs the calls in a chosen order and, like concurrent.futures' map, hands the results back in input order"""
+
+    def __init__(self, order_fn):
+        self.order_fn = order_fn
+
+    def map(self, fn, *iterables):
+        items = list(zip(*iterables))
+        results = [None] * len(items)
+        for i in self.order_fn(list(range(len(items)))):
+            results[i] = fn(*items[i])
+        return iter(results)
+
+
+def roundtrip_multi(kinds, lines_list, pool_order=None):
     """serde.marshal -> JSON -> serde.unmarshal on a list result; element i gets its own relative location"""
     fs = MemFS()
     with Patched(fs):
@@ -293,7 +307,8 @@ def roundtrip_multi(kinds, lines_list):
             pass
         broker = dr.Broker()
         broker[comp] = provs
-        docs, errors = serde.marshal(comp, broker, root="/out/data")
+        pool = PoolMapStub(pool_order) if pool_order is not None else None
+        docs, errors = serde.marshal(comp, broker, root="/out/data", pool=pool)
         docs = json.loads(json.dumps(docs))
         backs = serde.unmarshal(docs, root="/out/data", ctx=None, ds=None)
         contents = [list(b.content) for b in backs]
@@ -319,9 +334,11 @@ def make_multi(nel):
         n = 2 + en.choice("n", nel - 1)
         kinds = [KINDS[en.choice("kind%d" % i, len(KINDS))] for i in range(n)]
         lines_list = [[sstr.fresh_str(en, "m%d" % i, 1 + en.choice("len%d" % i, 2), LINE_ALPHA)] for i in range(n)]
-        case = lambda mv: {"kind": "multi", "providers": kinds, "lines": [[mv.str(x) for x in ls] for ls in lines_list]}  # noqa
+        pooled = en.flag("pool")                 # the parallel run strategy marshals the elements through an executor
+        perm = en.perm("pool_order", range(n)) if pooled else None
+        case = lambda mv: {"kind": "multi", "providers": kinds, "lines": [[mv.str(x) for x in ls] for ls in lines_list], "pool_order": perm}  # noqa
         en.note_sample(case)
-        provs, docs, backs, contents, errors = roundtrip_multi(kinds, lines_list)
+        provs, docs, backs, contents, errors = roundtrip_multi(kinds, lines_list, (lambda items: [items[i] for i in perm]) if pooled else None)
         eqs = []
 
         def eq(a, b):
@@ -468,10 +485,13 @@ def build_specs():
     return Specs
 
 
-def corrupt_run(faults, order):
+def corrupt_run(faults, order, history=False):
     """dehydrate a, b (multi-output), c (failed), d then corrupt the metadata entries as requested and hydrate into a fresh broker"""
     root = tempfile.mkdtemp(prefix="c11_")
     try:
+        if history:
+            # earlier in this process another archive was loaded: components were looked up by name before these specs existed
+            dr.get_component_by_name("some.earlier.plugin.Specs.report")
         Specs = build_specs()
         broker = dr.Broker()
         broker[Specs.a] = SF.DatasourceProvider(["alpha one", "alpha two"], "a_file")
@@ -565,9 +585,10 @@ def make_corrupt():
         with REG:
             faults = [FAULTS[en.choice("fault_%s" % k, len(FAULTS))] for k in "abd"]
             order = en.choice("listing_rotation", 4)
-            case = lambda mv: {"kind": "corrupt", "faults": faults, "order": order}  # noqa
+            history = en.flag("earlier_lookup") if all(f in ("intact", "deleted") for f in faults) else False
+            case = lambda mv: {"kind": "corrupt", "faults": faults, "order": order, "history": history}  # noqa
             en.note_sample(case)
-            bad = corrupt_run(faults, order)
+            bad = corrupt_run(faults, order, history)
             en.must_hold(not bad, "corruption-tolerated", case, detail=bad)
     return fn
 
@@ -601,7 +622,7 @@ def obligations(tier):
         Obligation("O2-corruption", make_corrupt(), ["corruption-tolerated"],
                    desc="real Hydration on a scratch directory: four components (one multi-output, one failed), every fault on any subset of the three loadable entries, four listing orders",
                    bounds={"faults": FAULTS, "entries": 3, "listing order": "4 rotations"},
-                   stubs=["glob listing order of the metadata directory is rotated by the harness"], outside=["real pool-based marshalling"], encoded=enc[12:], budget_s=900 if thorough else 300,
+                   stubs=["glob listing order of the metadata directory is rotated by the harness"], outside=["pre-emption between real pool threads"], encoded=enc[12:], budget_s=900 if thorough else 300,
                    replay="corrupt", check_sample=True),
     ]
 
@@ -630,13 +651,14 @@ def _native(case):
     if case["kind"] == "raw":
         return raw_roundtrip(case["source"], case["save_as"])
     if case["kind"] == "multi":
-        provs, docs, backs, contents, errors = roundtrip_multi(case["providers"], case["lines"])
+        po = case.get("pool_order")
+        provs, docs, backs, contents, errors = roundtrip_multi(case["providers"], case["lines"], (lambda items: [items[i] for i in po]) if po is not None else None)
         return judge_multi(provs, docs, backs, contents, errors, case["lines"], lambda a, b: a == b)
     if case["kind"] == "boundary":
         lines = boundary_lines(case["n"], case["k"], lambda i: case["special"][str(i)])
         sub = {"kind": "content", "provider": case["provider"], "save_as": None, "lines": lines}
         return [b if len(b) < 300 else b[:300] + "..." for b in _native(sub)]
-    return corrupt_run(case["faults"], case.get("order", 0))
+    return corrupt_run(case["faults"], case.get("order", 0), case.get("history", False))
 
 
 def validate(tier):
